@@ -129,7 +129,7 @@ def c08():
                                     defs={'VF_W': w, 'VF_S': sn, 'VF_MODE': mode, 'VF_AT': at, 'VF_B': b, 'VF_CLAIM': 8}, tv=(i % 11 == 0), timeout=600))
                         i += 1
     return dict(
-        queries=qs + stack_queries(8, quick_shapes=((1, 0), (2, 1), (2, 2)), thorough_shapes=((2, 0), (3, 0))),
+        queries=qs + stack_queries(8, quick_shapes=((1, 0), (2, 1), (2, 2)), thorough_shapes=((2, 0), (3, 0))) + plumb_queries(8, (11,)),
         level='model_checking',
         level_text='Bounded: for every clause arrangement (0..3 WITH x 0..3 SIDE_EFFECT x RETURN/THROW/throwing side effect/void) and every WITH outcome vector: WITH clauses run in declaration order and stop at the first false, side effects run once each in order and only then RETURN/THROW once, the value / exception reaches the caller for all 32-bit values, a throwing call still counts, and a shadowed expectation\'s actions never run.',
         bound='clause arrangements up to 3+3 (enumerated shapes, WITH outcomes as shape); argument, returned and thrown values symbolic; ' + STACK_BOUND,
@@ -466,7 +466,7 @@ def c18():
 @prop('C16')
 def c16():
     return dict(
-        queries=stack_queries(16) + plumb_queries(16, (6, 7)) + seqstep_queries(16, quick_only=2) + [Q('set_reporter', 'C16/setrep.cpp', 6, defs={'VF_CLAIM': 16}, timeout=600)],
+        queries=stack_queries(16) + plumb_queries(16, (6, 7, 11)) + seqstep_queries(16, quick_only=2) + [Q('set_reporter', 'C16/setrep.cpp', 6, defs={'VF_CLAIM': 16}, timeout=600)],
         level='model_checking',
         level_text='Bounded: exactly one OK report per accepted call carrying the handling expectation\'s text; none for rejected/forbidden calls.',
         bound=STACK_BOUND,
